@@ -506,6 +506,85 @@ def selftest(ctx):
     ctx.bump("binding_selftests", n)
 
 
+
+# ---------------------------------------------------------------------------
+# rename preconditions (RenameRules.tla): legal and ILLEGAL calls after real histories
+# ---------------------------------------------------------------------------
+
+def _attempt(node, attr, batch):
+    from hypergraph.nodes._rename import RenameError
+    before = (tuple(node.inputs), tuple(node.outputs), node.name, node.definition_hash)
+    mp = {o: n for o, n in batch} if attr == "inputs" else {R.oname(o): R.oname(n) for o, n in batch}
+    try:
+        new = node.with_inputs(mp) if attr == "inputs" else node.with_outputs(mp)
+        out = {"ok": True, "names": list(new.inputs if attr == "inputs" else new.outputs), "same_object": new is node}
+    except RenameError as e:
+        out = {"ok": False, "how": "RenameError", "msg": str(e)[:160]}
+    except Exception as e:  # noqa: BLE001
+        out = {"ok": False, "how": type(e).__name__, "msg": str(e)[:160]}
+    after = (tuple(node.inputs), tuple(node.outputs), node.name, node.definition_hash)
+    out["receiver_changed"] = before != after
+    return out
+
+
+def check_rejections(ctx, rng, thorough):
+    """After a sample of TLC's histories, attempt single- and two-pair batches over the universe plus a foreign name
+    (unknown names, names renamed away earlier, collisions with an untouched name, legal ones) on real nodes of
+    every kind; RenameRules!Verdict (TLC) says whether the call is legal and what the names become."""
+    import warnings
+    jobs, plan = [], []
+    per_P = 60 if thorough else 12
+    for P, lst in sorted(HISTS.items()):
+        sample = lst if len(lst) <= per_P else rng.sample(lst, per_P)
+        for rec in sample:
+            cur = list(rec["cur"])
+            names = sorted(set(R.ORIG[: max(P + 1, 3)]) | set(cur) | {"zz"})
+            singles = [[[o, n]] for o in names for n in names if o != n]
+            doubles = [[[o1, n1], [o2, n2]] for o1 in names for o2 in names if o1 < o2 for n1 in names for n2 in names
+                       if n1 != o1 and n2 != o2]
+            rng.shuffle(singles)
+            rng.shuffle(doubles)
+            for batch in singles[: (40 if thorough else 14)] + doubles[: (40 if thorough else 10)]:
+                jid = len(jobs) + 1
+                jobs.append({"id": jid, "cur": cur, "batch": batch})
+                plan.append((jid, P, rec, batch))
+    res, stats = tlc.run_batch("C06_Reject", jobs, "C06_REJ_JOBS", cfg="C06_Reject.cfg")
+    ctx.add_tlc(stats)
+    kinds = [("func", "inputs"), ("graph", "inputs"), ("route", "inputs"), ("ifelse", "inputs"), ("interrupt", "inputs"),
+             ("func", "outputs"), ("graph", "outputs")]
+    n_ok = n_bad = 0
+    with warnings.catch_warnings():
+        warnings.simplefilter("ignore")
+        for jid, P, rec, batch in plan:
+            m = res[jid]
+            kind, attr = kinds[jid % len(kinds)]
+            Q = P if attr == "outputs" else (0 if kind in ("route", "ifelse") else 1)
+            steps = [[attr, b] for b in rec["ops"]]
+            try:
+                node = R.apply_steps(R.base_node(kind, P, "r" * P, Q), steps)
+            except Exception as e:  # noqa: BLE001 - a legal history rejected: the main replay reports it
+                ctx.divergence("history rejected before the rename-precondition attempt", {"error": type(e).__name__})
+                continue
+            o = _attempt(node, attr, batch)
+            ctx.count()
+            n_ok += m["ok"]
+            n_bad += not m["ok"]
+            wit = {"kind": kind, "attr": attr, "P": P, "history": rec["ops"], "current_names": rec["cur"], "batch": batch, "model": m, "observed": o}
+            exp_names = [R.oname(x) for x in m["names"]] if attr == "outputs" else list(m["names"])
+            what = f"{kind}.with_{attr}({dict(map(tuple, batch))}) after {json.dumps(rec['ops'])} (names {rec['cur']})"
+            if o["receiver_changed"]:
+                ctx.violation("rename-call-changed-its-receiver", wit, f"{what}: the receiver's names/hash changed")
+            elif m["ok"] and not o["ok"]:
+                ctx.violation("legal-rename-rejected", wit, f"{what}: legal for RenameRules.tla, the code raised {o['how']}: {o['msg']}")
+            elif not m["ok"] and o["ok"]:
+                ctx.violation("illegal-rename-accepted", wit, f"{what}: {m['why']} for RenameRules.tla, the code returned a node with names {o['names']}")
+            elif not m["ok"] and o["how"] != "RenameError":
+                ctx.violation("illegal-rename-raw-error", wit, f"{what}: {m['why']}; the code raised {o['how']} instead of RenameError: {o['msg']}")
+            elif m["ok"] and o["names"] != exp_names:
+                ctx.violation("rename-result-names", wit, f"{what}: names {o['names']}, RenameRules.tla says {exp_names}")
+    ctx.bump("rename_precondition_attempts_legal", n_ok)
+    ctx.bump("rename_precondition_attempts_illegal", n_bad)
+
 # ---------------------------------------------------------------------------
 
 def run(tier, seed):
@@ -522,6 +601,7 @@ def run(tier, seed):
     t2 = time.time()
     report(ctx, mcount, keep, hist_hit)
     check_alpha(ctx, rng, thorough)
+    check_rejections(ctx, rng, thorough)
     if not ctx.violations and not ctx.known_hits:
         selftest(ctx)      # the self-test uses the real code as its reference: meaningful only when the code conforms
     some = HISTS[max(HISTS)][len(HISTS[max(HISTS)]) // 2]
@@ -531,6 +611,7 @@ def run(tier, seed):
         "Rename.tla: a batch is a partial map without identity pairs unless the run says identity_pairs; entries of a batch are appended in dict order, invariants quantify over every within-batch order (all_orders) or over ascending+descending",
         "the histories replayed are exactly the states TLC explored: Emit prints each reachable state once and the harness requires printed == distinct == TLC's distinct-state count (simulation runs: the printed set)",
         "each history is replayed once as input history (all node kinds) and once as output history (FunctionNode, GraphNode) of a partner node; P=1 histories also drive with_name and interrupt outputs; profiles (which positions carry defaults / inner binds) rotate with the history index" + ("" if thorough else "; thorough uses every FunctionNode profile"),
+        "RenameRules.tla (guard of Rename.tla's transition) also decides ILLEGAL calls: single- and two-pair batches over the universe plus a foreign name are attempted after sampled histories on every node kind; illegal = RenameError and nothing changes, legal = the position-wise parallel substitution",
         "Rename_gn.cfg / C06_gn_*.cfg counterexamples are model-level evidence about the code-shaped GraphNode algorithms; violations are decided only by the replay",
     ]
     return ctx.finish(
